@@ -74,7 +74,7 @@ ROWS = [
 BY = {r["case"]: r for r in ROWS}
 
 
-def residues(row, tier):
+def residues(row, tier, fam=None):
     u = row["unit"]
     if tier == "thorough":
         return list(range(u))
@@ -87,6 +87,7 @@ FAMILIES = {
     "c02": ("eps_rt", True),
     "c03": ("eps_borrows", True),
     "c07": ("units_counts", True),
+    "c03a": ("eps_alloc", True),
 }
 
 
